@@ -647,7 +647,18 @@ class ListenerRequestHandler(BaseHTTPRequestHandler):
                 _format("Invalid Content-Length header value: {0}",
                         content_length))
             return
-        body = self.rfile.read(content_len)
+        # Read the body in chunks: A single read() allocates a buffer of the
+        # announced size up front, so that a huge Content-Length value would
+        # raise MemoryError or OverflowError instead of being answered.
+        chunks = []
+        remaining = content_len
+        while remaining > 0:
+            chunk = self.rfile.read(min(remaining, 65536))
+            if not chunk:
+                break
+            chunks.append(chunk)
+            remaining -= len(chunk)
+        body = b''.join(chunks)
 
         try:
             msgid, methodname, params = self.parse_export_request(body)
